@@ -8,6 +8,8 @@
 //         13 fid fid2        A.modify_detach(nested functor) whose inner submission is B.modify_async(functor fid2) (future dropped)
 //         14 fid fid2 slot   futuresA[slot] = A.modify_async(nested functor, inner B.modify_detach)
 //         15 fid fid2 slot   futuresA[slot] = A.modify_async(nested functor, inner B.modify_async)
+//         16..19             as 12..15, but the nested functor re-submits to A ITSELF (A.modify_detach / A.modify_async
+//                            from inside a modification function of A)
 // A modification function applied to A that submits a modification to ANOTHER object of the same type: the
 // submission must go through B's own try-lock / queue (C02: no modification of B while a shared handle on B lives).
 #include "vstd.hpp"
@@ -17,6 +19,7 @@
 #include "gmlc/libguarded/deferred_guarded.hpp"
 #undef private
 #undef std
+#define VS_OWN_OPERATOR_NEW
 #include "driver.hpp"
 
 // see harness/deferred_drv.cpp: frees done by client threads are postponed to the end of the case so that the
@@ -81,11 +84,12 @@ struct mutex_traits<vstd::shared_timed_mutex> {
     static long sharers(const vstd::shared_timed_mutex& m) { return (long)m.sharers.size(); }
 };
 
+inline long apply_f(long fid, long v) { return fid < 100 ? v * 16 + fid : fid; }
 // the plain functor of harness/deferred_drv.cpp
 inline long apply_plain(VPay& x, long fid)
 {
     vs::user_call(fid);
-    long v = x.read() * 16 + fid;
+    long v = apply_f(fid, x.read());
     x.write(v);
     return v;
 }
@@ -192,15 +196,16 @@ struct Inst: IInst {
 
     // the nested modification function of A: between its user_call and its payload access it submits a
     // modification to B (through B's public interface, as any client code would)
-    long apply_nested(VPay& x, long fid, long fid2, bool inner_async)
+    long apply_nested(VPay& x, long fid, long fid2, bool inner_async, bool self)
     {
         vs::user_call(fid);
+        DG& target = self ? A : B;
         if (inner_async) {
-            (void)B.modify_async([fid2](VPay& y) -> long { return apply_plain(y, fid2); });
+            (void)target.modify_async([fid2](VPay& y) -> long { return apply_plain(y, fid2); });
         } else {
-            B.modify_detach([fid2](VPay& y) { apply_plain(y, fid2); });
+            target.modify_detach([fid2](VPay& y) { apply_plain(y, fid2); });
         }
-        long v = x.read() * 16 + fid;
+        long v = apply_f(fid, x.read());
         x.write(v);
         return v;
     }
@@ -210,16 +215,19 @@ struct Inst: IInst {
         long c = o[0];
         if (c >= 0 && c <= 11) return plain_op(A, 0, tid, c, o);
         if (c >= 20 && c <= 31) return plain_op(B, 1, tid, c - 20, o);
+        const bool self = (c >= 16 && c <= 19);
+        if (self) c -= 4;
         if (c == 12 || c == 13) {
             long fid = o[1], fid2 = o[2];
             bool ia = (c == 13);
-            A.modify_detach([this, fid, fid2, ia](VPay& x) { apply_nested(x, fid, fid2, ia); });
+            A.modify_detach([this, fid, fid2, ia, self](VPay& x) { apply_nested(x, fid, fid2, ia, self); });
             return 0;
         }
         if (c == 14 || c == 15) {
             long fid = o[1], fid2 = o[2];
             bool ia = (c == 15);
-            std::future<long> fut = A.modify_async([this, fid, fid2, ia](VPay& x) -> long { return apply_nested(x, fid, fid2, ia); });
+            std::future<long> fut =
+                A.modify_async([this, fid, fid2, ia, self](VPay& x) -> long { return apply_nested(x, fid, fid2, ia, self); });
             futures[0][tid][o[3]] = std::move(fut);
             return 0;
         }
